@@ -5,9 +5,16 @@ from pbt import ir
 
 STATE_POOL = ["S", "E", "R", "A", "B", "C", "H", "V", "W", "X", "Y", "Z", "U", "L", "D1", "Sv", "Iu"]
 STATE_POOL_I = ["S", "I", "R", "E", "A", "H"]           # includes the `I` that defeats the C back-end
+# lower-case single letters: the names a hand-written s/i/r model uses, and the names Python code uses for loop variables
+STATE_POOL_LC = ["s", "i", "r", "e", "x", "y", "z", "c", "j", "v"]
+PARAM_POOL_LC = ["a", "b", "k", "i", "j", "n", "p", "m"]
 PARAM_POOL = ["beta", "gamma", "mu", "kappa", "sigma", "alpha", "rho", "k1", "k2", "b0", "d0", "N",
               "nu", "tau", "eps", "omega", "phi", "delta"]
 DERIVED_POOL = ["bt", "foi", "g2", "rr"]
+
+
+def param_pool(states):
+    return PARAM_POOL + [p for p in PARAM_POOL_LC if p not in states]
 
 
 def sig(x, n=4):
@@ -108,7 +115,7 @@ def magnitude(draw, params, derived=(), symbolic=True, integer=False, hi=3):
 @st.composite
 def state_decl(draw, n, pool=None, allow_range=True, limits="none"):
     """n states as a declaration list.  limits: 'none' | 'mixed' (generate per-state limits)."""
-    pool = pool or draw(st.sampled_from([STATE_POOL, STATE_POOL, STATE_POOL_I]))
+    pool = pool or draw(st.sampled_from([STATE_POOL, STATE_POOL, STATE_POOL_I, STATE_POOL_LC]))
     decl = []
     use_range = allow_range and n >= 2 and draw(st.integers(0, 4)) == 0
     names = []
@@ -118,8 +125,12 @@ def state_decl(draw, n, pool=None, allow_range=True, limits="none"):
         rn = ["%s%d" % (base, i) for i in range(1, k + 1)]
         decl.append({"range": "%s1:%d" % (base, k + 1), "names": rn})
         names += rn
+        # a range declaration 'x1:4' also registers the vector under its base name `x` (usable in equations by design):
+        # a scalar state called `x` next to it is a name clash of the user's making, outside the input domain
+        names.append(base)
+    n_rest = n - (len(decl[0]["names"]) if decl else 0)
     rest = draw(st.lists(st.sampled_from([p for p in pool if p not in names]),
-                         min_size=n - len(names), max_size=n - len(names), unique=True))
+                         min_size=n_rest, max_size=n_rest, unique=True))
     for nm in rest:
         decl.append({"name": nm, "lims": None})
     if use_range and draw(st.booleans()):
@@ -167,7 +178,8 @@ def derived_params(draw, states, params, n):
 
 @st.composite
 def general_model(draw, max_states=5, max_params=5, max_events=5, min_events=0, allow_odes=True,
-                  allow_derived=True, kinds="TBD", min_params=1, allow_range=True, min_states=1, state_pool=None):
+                  allow_derived=True, kinds="TBD", min_params=1, allow_range=True, min_states=1, state_pool=None,
+                  lower_case_params=True):
     """Unconstrained model of C01/C03/C12/C13 (positive rates, arbitrary growth)."""
     n_s = draw(st.integers(min_states, max_states))
     n_p = draw(st.integers(min_params, max_params))
@@ -175,7 +187,8 @@ def general_model(draw, max_states=5, max_params=5, max_events=5, min_events=0, 
     states = []
     for d in decl:
         states += d["names"] if "range" in d else [d["name"]]
-    params = draw(st.lists(st.sampled_from(PARAM_POOL), min_size=n_p, max_size=n_p, unique=True))
+    params = draw(st.lists(st.sampled_from(param_pool(states) if lower_case_params else PARAM_POOL),
+                           min_size=n_p, max_size=n_p, unique=True))
     derived = draw(derived_params(states, params, draw(st.integers(0, 2)))) if (allow_derived and params) else []
     dnames = [d["name"] for d in derived]
     n_e = draw(st.integers(min_events, max_events))
@@ -269,7 +282,7 @@ def event_model(draw, max_states=5, max_events=5, kinds="TBD", limits=False, tra
     # rates may depend only on states that can never go negative
     dep = [s for s in states if lim_kind[s] in ("default", "zero_none", "lo_none", "lo_hi")]
     n_p = draw(st.integers(1, 4))
-    params = draw(st.lists(st.sampled_from([p for p in PARAM_POOL]), min_size=n_p, max_size=n_p, unique=True))
+    params = draw(st.lists(st.sampled_from(param_pool(states)), min_size=n_p, max_size=n_p, unique=True))
     n_e = draw(st.integers(min_events, max_events))
     events = []
     for _ in range(n_e):
@@ -315,7 +328,7 @@ def stochastic_setup(draw, m, x_hi=40, t_max=10.0, target_events=120, hard_event
             a = min(a, b)
         x0.append(draw(st.integers(a, max(a, b))))
     theta = [draw(fl(0.05, 2.0)) for _ in m["params"]]
-    t0 = draw(st.sampled_from([0.0, 0.0, 1.0, 2.5]))
+    t0 = draw(st.sampled_from([0.0, 0.0, 1.0, 2.5, 2020.0]))
     r0 = float(sum(ir.reference_float(m, x0, t0, theta)["rates"]))
     bound = _rate_bound(m, theta, sum(abs(v) for v in x0) + 30)
     horizon = t_max
@@ -341,10 +354,10 @@ def ode_model(draw, max_states=4, allow_time=True, families=("chain", "epidemic"
     """
     fam = draw(st.sampled_from(list(families)))
     n_s = draw(st.integers(2 if fam != "bounded" else 1, max_states))
-    pool = draw(st.sampled_from([STATE_POOL, STATE_POOL_I]))
+    pool = draw(st.sampled_from([STATE_POOL, STATE_POOL_I, STATE_POOL_LC]))
     states = draw(st.lists(st.sampled_from(pool), min_size=n_s, max_size=n_s, unique=True))
     n_p = draw(st.integers(min_params, 4))
-    params = draw(st.lists(st.sampled_from([p for p in PARAM_POOL if p != "N"]), min_size=n_p, max_size=n_p, unique=True))
+    params = draw(st.lists(st.sampled_from([p for p in param_pool(states) if p != "N"]), min_size=n_p, max_size=n_p, unique=True))
     used = []
 
     def par():
@@ -434,7 +447,8 @@ def ode_setup(draw, m, n_times=(1, 12), t_max=6.0, uniform=None):
     n_s = len(ir.state_names(m))
     x0 = [draw(fl(0.5, 15.0, 3)) for _ in range(n_s)]
     theta = [draw(fl(0.1, 1.5, 3)) for _ in m["params"]]
-    t0 = draw(st.sampled_from([0.0, 0.0, 1.0, 3.5]))
+    # calendar-style origins (a year, a spreadsheet date serial, a day ordinal) make |t| large against the output spacing
+    t0 = draw(st.sampled_from([0.0, 0.0, 1.0, 3.5, 2020.0, 44197.0, 737850.0]))
     n = draw(st.integers(*n_times))
     if uniform is None:
         uniform = draw(st.booleans())
